@@ -3791,14 +3791,24 @@ class ControlConnection(object):
                 # when a connection is successfully made, _set_new_connection
                 # will be called with the new connection and then our
                 # _reconnection_handler will be cleared out
-                self._reconnection_handler = _ControlReconnectionHandler(
+                handler = _ControlReconnectionHandler(
                     self, self._cluster.scheduler, schedule,
-                    self._get_and_set_reconnection_handler,
-                    new_handler=None)
-                self._reconnection_handler.start()
+                    self._reconnection_handler_done)
+                handler.callback_args = (handler,)
+                self._reconnection_handler = handler
+                handler.start()
         except Exception:
             log.debug("[control connection] error reconnecting", exc_info=True)
             raise
+
+    def _reconnection_handler_done(self, handler):
+        """
+        Called by a _ControlReconnectionHandler when it has installed a new connection: clears it out, unless a
+        newer handler has replaced it meanwhile (that one is still running and must stay cancellable).
+        """
+        with self._reconnection_lock:
+            if self._reconnection_handler is handler:
+                self._reconnection_handler = None
 
     def _get_and_set_reconnection_handler(self, new_handler):
         """
